@@ -63,8 +63,8 @@ def setExponent (c : Ctx) (d : Dec) (res : Cond) (xs : List Int) : Dec × Cond :
 def roundAddOne (b : Nat) (diff : Int) : Nat × Int :=
   if ndigits (b + 1) > ndigits b then ((b + 1) / 10, diff + 1) else (b + 1, diff)
 
-/-- `Rounder.Round(c, d, x, disableIfPrecisionZero)` on a fresh destination -/
-def roundX (c : Ctx) (x : Dec) (disableIfPrecisionZero : Bool) : Dec × Cond :=
+/-- `Rounder.Round(c, d, x, disableIfPrecisionZero)` for a finite `x`, on a fresh destination -/
+def roundXFin (c : Ctx) (x : Dec) (disableIfPrecisionZero : Bool) : Dec × Cond :=
   let d := x
   let nd : Int := ndigits x.coeff
   let xs := x.sign
@@ -92,8 +92,30 @@ def roundX (c : Ctx) (x : Dec) (disableIfPrecisionZero : Bool) : Dec × Cond :=
       else
         setExponent c d {} [d.exp, 0]
 
+/-- `Rounder.Round(c, d, x, disableIfPrecisionZero)`: infinities and NaNs are copied, not rounded
+(their coefficient and exponent fields carry no value) -/
+def roundX (c : Ctx) (x : Dec) (disableIfPrecisionZero : Bool) : Dec × Cond :=
+  if x.form != .finite then (x, {}) else roundXFin c x disableIfPrecisionZero
+
+theorem roundX_finite (c : Ctx) (x : Dec) (b : Bool) (hx : x.form = .finite) :
+    roundX c x b = roundXFin c x b := by
+  simp [roundX, hx]
+
+theorem roundX_nonfinite (c : Ctx) (x : Dec) (b : Bool) (hx : x.form ≠ .finite) :
+    roundX c x b = (x, {}) := by
+  simp [roundX, hx]
+
 /-- `Context.round` -/
 def ctxRound (c : Ctx) (x : Dec) : Dec × Cond := roundX c x true
+
+/-- `Context.round` on a finite operand -/
+def ctxRoundFin (c : Ctx) (x : Dec) : Dec × Cond := roundXFin c x true
+
+theorem ctxRound_finite (c : Ctx) (x : Dec) (hx : x.form = .finite) : ctxRound c x = ctxRoundFin c x := by
+  simp [ctxRound, ctxRoundFin, roundX, hx]
+
+theorem ctxRound_nonfinite (c : Ctx) (x : Dec) (hx : x.form ≠ .finite) : ctxRound c x = (x, {}) := by
+  simp [ctxRound, roundX, hx]
 
 /-- package a `(Dec × Cond)` core result with the error class -/
 def finish (c : Ctx) (r : Dec × Cond) : Out := { d := r.1, fl := r.2, err := goError c.traps r.2 }
